@@ -17,13 +17,13 @@ RULE = ("each evaluation is one (scenario, close point): a generated client work
         "class at close, event-order signature); non-trivial = something was pending or connected at close")
 ASSUMPTIONS = ["one KafkaClient per world, so every connection and attempt in simnet belongs to it",
                "calling close() twice is outside the statement and is not generated"]
-REACH_MIN = {"close_points": {"quick": 600, "thorough": 15000},
-             "state_bootstrapping": {"quick": 40, "thorough": 1000},
-             "state_requests_in_flight": {"quick": 150, "thorough": 4000},
-             "state_connecting_or_backoff": {"quick": 40, "thorough": 1000},
-             "state_nested_broker_close": {"quick": 10, "thorough": 200},
-             "pending_ops_at_close": {"quick": 300, "thorough": 8000},
-             "ops_started_after_close": {"quick": 600, "thorough": 15000}}
+REACH_MIN = {"close_points": {"quick": 600, "thorough": 9000},
+             "state_bootstrapping": {"quick": 40, "thorough": 600},
+             "state_requests_in_flight": {"quick": 132, "thorough": 1980},
+             "state_connecting_or_backoff": {"quick": 40, "thorough": 600},
+             "state_nested_broker_close": {"quick": 10, "thorough": 150},
+             "pending_ops_at_close": {"quick": 300, "thorough": 4500},
+             "ops_started_after_close": {"quick": 600, "thorough": 9000}}
 
 
 def cases(tier, seed):
